@@ -824,12 +824,16 @@ func init() {
 	register(&core.Check{
 		ID:      "C10",
 		Amplify: amplifyAPI,
+		Mech:    &core.Mech{Module: "SearchTrace", Project: mechAPI, Quick: 300, Thorough: 5000},
 		Designs: append(histDesigns("assume"),
 			core.Design{Name: "incremental-keep", Module: "Incremental", Cfg: "Incremental_keep.cfg", Workers: 6, XmxMB: 4000, Timeout: 5 * time.Minute},
 			core.Design{Name: "incremental-wipe", Module: "Incremental", Cfg: "Incremental_wipe.cfg", Workers: 1, XmxMB: 2000, Timeout: 5 * time.Minute, ExpectViolation: "RefinesAPI"},
 			core.Design{Name: "cdcl-under-assumptions", Module: "CDCLAssume", Cfg: "CDCLAssume_quick.cfg", Tier: "quick", Workers: 6, XmxMB: 8000, Timeout: 20 * time.Minute},
 			core.Design{Name: "cdcl-under-assumptions", Module: "CDCLAssume", Cfg: "CDCLAssume_thorough.cfg", Tier: "thorough", Workers: 16, XmxMB: 12000, Timeout: 60 * time.Minute},
-			core.Design{Name: "cdcl-assumption-shortcut", Module: "CDCLAssume", Cfg: "CDCLAssume_shortcut.cfg", Workers: 4, XmxMB: 4000, Timeout: 10 * time.Minute, ExpectViolation: "LearnEntailed"}),
+			core.Design{Name: "cdcl-assumption-shortcut", Module: "CDCLAssume", Cfg: "CDCLAssume_shortcut.cfg", Workers: 4, XmxMB: 4000, Timeout: 10 * time.Minute, ExpectViolation: "LearnEntailed"},
+			// rounds of Assume + Solve over clauses, cardinality and PB constraints (PBCDCL with NewRound / AssumeLit):
+			// answers relative to the assumptions of the round, what is learned holds without them
+			core.Design{Name: "search-rounds", Module: "PBCDCL", Cfg: "PBCDCL_rounds.cfg", Tier: "thorough", Workers: 16, XmxMB: 16000, Timeout: 30 * time.Minute}),
 		TraceModule: "APITrace",
 		Cases: func(env *core.Env) []core.Case {
 			r := env.Rand
